@@ -16,11 +16,17 @@ def fwd_cell(rng, l=None, bits=None, mark=None, nonnull=False):
 
 class Spec(CC.ConcSpec):
     pid = "C17"
-    modules = ["MmtkModel.Props.C17"]
+    modules = ["MmtkModel.Props.C17", "MmtkModel.Props.C17Byte"]
     theorems = ["Mmtk.Fwd.one_winner_at_a_time", "Mmtk.Fwd.copy_at_most_once", "Mmtk.Fwd.agreement",
                 "Mmtk.Fwd.ptr_read_only_after_write", "Mmtk.Fwd.copy_exactly_once_copyspace",
                 "Mmtk.Fwd.enqueued_at_most_once", "Mmtk.Fwd.enqueued_exactly_once",
-                "Mmtk.Fwd.already_marked_untouched", "Mmtk.Fwd.outcome_sound"]
+                "Mmtk.Fwd.already_marked_untouched", "Mmtk.Fwd.outcome_sound",
+                # objects whose forwarding bits share one metadata byte (byte-wide compare-exchange): every run of the
+                # two-object byte model projects to a run of the per-object model; per-object theorems and verdict
+                "Mmtk.FwdByte.proj_exec", "Mmtk.FwdByte.neighbours_independent", "Mmtk.FwdByte.cas_leaves_neighbour",
+                "Mmtk.FwdByte.copy_at_most_once_per_object", "Mmtk.FwdByte.agreement_per_object",
+                "Mmtk.FwdByte.one_winner_at_a_time_per_object", "Mmtk.FwdByte.outcome_sound_per_object",
+                "Mmtk.FwdByte.spurious_failure_then_retry", "Mmtk.FwdByte.noRetry_copies_twice"]
     component = "fwd"
     race_component = "fwd"
     relation = ("Mmtk.Fwd.localStep (thread run to the end of each function) ≙ util::object_forwarding::{attempt_to_forward, "
@@ -34,11 +40,18 @@ class Spec(CC.ConcSpec):
         "four stub bindings CVm<0..3> (harness/src/comp/conc/vms.rs) place the metadata: side (= VerifVM's layout), in the "
         "pointer word at shift 0 and 56 (combined store), in another header word (two stores)",
         "real-thread races sample schedules (yield points armed); they can refute, not prove",
+        "multi-object races: side layout only (the only layout in which different objects share a metadata byte); the window "
+        "between the byte load and the byte CAS inside compare_exchange_atomic has no yield point (add-only hooks cannot put one "
+        "there): it is hit by real parallelism over many rounds",
     ]
     rule = ("sequential: every layout x slot x forwarding-bits value (00/10/11 and the unreachable 01) x mark x random/boundary "
             "neighbour bits and pointer words, 1-4 calls per cell, exact differential + Python oracle; races: N in 2..16 real threads "
             "run the CopySpace-/Immix-style trace composition on one object, outcome judged by Mmtk.Fwd.outcomeOk (Lean, proved "
-            "sound by outcome_sound) and by the Python oracle; every race counts as non-trivial")
+            "sound by outcome_sound) and by the Python oracle; every race counts as non-trivial; multi-object races: k in {2,4,8} "
+            "adjacent objects whose side forwarding bits (and mark bits) share a metadata byte, T in 2..8 tracers each tracing all k "
+            "objects starting at a different neighbour, spin rendezvous per round, yield points on/off; EVERY object of every round "
+            "judged by outcomeOk (sound per object: FwdByte.outcome_sound_per_object) and by the Python oracle (one copy, agreement, "
+            "FORWARDED + pointer = the copy for every object, bits outside the group unchanged)")
 
     # ---------------------------------------------------------------- sequential differential
     def gen(self, rng, tier, debug):
@@ -205,13 +218,20 @@ class Spec(CC.ConcSpec):
         res, hx = split_out(line)
         if hx is None:
             return [("race:fwd:crash", f"race did not finish: {line}")]
+        return self.outcome_bad(kind, n, mask, c0, res, hx, set(range(1, n + 1)), alone=True)
+
+    @staticmethod
+    def outcome_bad(kind, n, mask, c0, res, hx, copy_ids, alone):
+        """C17 on ONE object: `n` tracers ran the trace_object composition on the object whose initial cell is `c0`;
+        `res` = `r=… copies=… q=…`, `hx` = its final cell. `copy_ids`: the copies the harness arranged for this object.
+        `alone`: nothing else was going on (then every unrelated bit must be unchanged)."""
         fin = Cell.parse_hex(c0.l, c0.slot, hx)
         f = dict(x.split("=", 1) for x in res.split())
         rs = f["r"].split(",")
         copies = int(f["copies"])
         q = [] if f["q"] == "-" else f["q"].split(",")
         bad = []
-        if len(rs) != n or "panic" in rs:
+        if len(rs) != n or "panic" in rs or "unset" in rs:
             bad.append(("race:fwd:thread-panicked", f"results {rs}"))
         if copies > 1:
             bad.append(("race:fwd:copied-twice", f"{copies} calls of ObjectModel::copy for one object"))
@@ -219,7 +239,7 @@ class Spec(CC.ConcSpec):
             bad.append(("race:fwd:disagreement", f"tracers returned different references: {sorted(set(rs))}"))
         r = rs[0]
         if copies == 1:
-            ok_copy = r.startswith("new:") and 1 <= int(r[4:]) <= n
+            ok_copy = r.startswith("new:") and int(r[4:]) in copy_ids
             if not ok_copy:
                 bad.append(("race:fwd:not-the-copy", f"one copy was made but the tracers returned {r}"))
             if fin.get("fwd") != 3 or fmt_ref(c0.slot, fin.ptr()) != r:
@@ -230,7 +250,7 @@ class Spec(CC.ConcSpec):
                 bad.append(("race:fwd:copied-marked", "a marked object was copied / a copied object was marked in place"))
             if kind == "immix" and mask == (1 << n) - 1:
                 bad.append(("race:fwd:copied-declined", "every tracer declined (pinned) yet the object was copied"))
-            if fin.others("fwd", ptr=True) != c0.others("fwd", ptr=True):
+            if alone and fin.others("fwd", ptr=True) != c0.others("fwd", ptr=True):
                 bad.append(("race:fwd:clobber", f"unrelated bits changed: {c0.set_line()} -> {hx}"))
         elif copies == 0:
             if kind == "copy":
@@ -242,7 +262,7 @@ class Spec(CC.ConcSpec):
                 bad.append(("race:fwd:enqueue", f"queue {q}, expected {expq}"))
             if kind == "immix" and mask == 0 and c0.get("mark") == 0:
                 bad.append(("race:fwd:not-copied", "nobody declined and the object was unmarked, yet nobody copied"))
-            if fin.others("fwd", "mark") != c0.others("fwd", "mark"):
+            if alone and fin.others("fwd", "mark") != c0.others("fwd", "mark"):
                 bad.append(("race:fwd:clobber", f"unrelated bits changed: {c0.set_line()} -> {hx}"))
         return bad
 
@@ -259,13 +279,90 @@ class Spec(CC.ConcSpec):
                 win["none" if r == "orig" else "thread0" if r == "new:1" else "other"] += 1
         return {"race_threads": th, "race_winner": win, "race_kind": kinds}
 
+    # ---------------------------------------------------------------- multi-object races (objects sharing one metadata byte)
+    def group_cases(self, rng, tier):
+        """k adjacent objects (side layout: 4 objects' forwarding states per metadata byte; Immix variant: also 8 mark bits per
+        byte), T tracers, each tracing ALL k objects starting at a different neighbour; `rounds` rounds per case."""
+        ncases, rounds = (48, 120) if tier == "quick" else (400, 600)
+        cases = []
+        for i in range(ncases):
+            k = [4, 2, 4, 8][i % 4]
+            nt = rng.choice([2, 3, 4, 4, 4, 6, 8])
+            kind = "copy" if i % 3 != 2 else "immix"
+            c = fwd_cell(rng, l=0, bits=0)
+            c.slot = 0
+            # the raced objects start NOT_TRIGGERED_YET; the other forwarding states of the byte keep random values
+            c.v["mf"] &= ~((1 << (2 * min(k, 4))) - 1) & 0xff
+            if kind == "copy" or rng.random() < 0.5:
+                # all raced objects unmarked (CopySpace objects carry no mark bit: model hypothesis `immix = false → m0 = false`);
+                # Immix: otherwise random mark bits (an already marked object is neither copied nor queued)
+                c.v["mm"] &= ~((1 << k) - 1) & 0xff
+            mask = rng.choice([0, 0, 0, (1 << nt) - 1, rng.getrandbits(nt)]) if kind == "immix" else 0
+            seed = 0 if i % 2 == 0 else rng.getrandbits(40) | 2      # 0: yield points off, pure parallelism
+            cases.append(Case([f"fwd mrace {kind} {nt} {seed} {k} {rounds} {mask}"], ["cfg debug 1", c.set_line()], "group"))
+        return cases
+
+    def group_judge_op(self, case, j, obj):
+        t = case.ops[0].split()
+        return f"fwd judgeat {j} {t[2]} {t[3]} {obj}"
+
+    def group_oracle(self, case, rounds):
+        t = case.ops[0].split()
+        kind, n, k, mask = t[2], int(t[3]), int(t[5]), int(t[7])
+        tpl = Cell.parse_set(case.pre[-1])
+        bad, seen = [], set()
+        for ri, r in enumerate(rounds):
+            if len(r) != k:
+                return [("race:fwd:group:shape", f"round {ri}: {len(r)} objects reported for a group of {k}")]
+            for j, obj in enumerate(r):
+                res, hx = split_out(obj)
+                if hx is None:
+                    return [("race:fwd:group:shape", f"round {ri} object {j}: {obj}")]
+                c0 = tpl.at(j)
+                ids = {1 + 64 * j + x for x in range(n)}
+                for key, what in self.outcome_bad(kind, n, mask, c0, res, hx, ids, alone=False):
+                    key = key.replace("race:fwd:", "race:fwd:group:")
+                    if key not in seen:
+                        seen.add(key)
+                        bad.append((key, f"round {ri}, object {j} of {k} (T={n}): {what}; outcome `{obj}`"))
+                # the rest of the group's bytes: forwarding states of objects that are not raced, log / pin / LOS bytes,
+                # mark bits (CopySpace never marks; Immix only marks raced objects)
+                fin = Cell.parse_hex(0, j, hx)
+                keep = ~((1 << (2 * min(k, 4))) - 1) & 0xff
+                keep_mm = 0xff if kind == "copy" else (~((1 << k) - 1) & 0xff)
+                if (fin.v["mf"] & keep) != (tpl.v["mf"] & keep) or (fin.v["mm"] & keep_mm) != (tpl.v["mm"] & keep_mm) \
+                        or any(fin.v[x] != tpl.v[x] for x in ("mg", "mp", "ml")):
+                    if "clobber" not in seen:
+                        seen.add("clobber")
+                        bad.append(("race:fwd:group:clobber", f"round {ri}, object {j}: bits of objects outside the group changed: "
+                                                              f"{tpl.set_line()} -> {hx}"))
+        return bad
+
+    def group_summary(self, cases, parsed):
+        cfg, winners = {}, {}
+        for c, rounds in zip(cases, parsed):
+            t = c.ops[0].split()
+            key = f"{t[2]}/T{t[3]}/k{t[5]}/{'yield' if t[4] != '0' else 'free'}"
+            cfg[key] = cfg.get(key, 0) + (len(rounds) if rounds else 0)
+            for r in rounds or []:
+                ws = set()
+                for obj in r:
+                    f = dict(x.split("=", 1) for x in obj.split(" | ")[0].split())
+                    ws.add(f["r"].split(",")[0])
+                w = "nobody-copied" if ws == {"orig"} else f"{len(ws)}-distinct-results-in-group"
+                winners[w] = winners.get(w, 0) + 1
+        return {"group_rounds_by_config": cfg, "group_round_shapes": winners}
+
 
 META = {
     "text": "Lean theorems (any number of threads, every interleaving of the atomic steps, CopySpace and Immix variants, one-store "
             "and two-store layouts): one winner at a time, at most one copy, agreement, pointer read only after written, queued "
             "exactly once; outcome_sound links them to the executable verdict. Tie: exact sequential differential of the model "
             "thread against the real object_forwarding functions on four metadata layouts from every cell state, plus real-thread "
-            "races (2-16 threads, armed yield points) judged by the Lean predicate and an independent Python oracle.",
+            "races (2-16 threads, armed yield points) judged by the Lean predicate and an independent Python oracle; and "
+            "multi-object races (2/4/8 objects whose forwarding bits share a side-metadata byte, every tracer traces all of them "
+            "in rotation) with every object judged on its own — justified by FwdByte.neighbours_independent: a byte-wide CAS "
+            "model of two objects in one byte projects onto the per-object model (spurious failure + retry = stutter).",
     "note": "Proof over the SC interleaving model; partial w.r.t. the code: schedules are sampled, weak memory is out of scope, the "
             "trace_object compositions are transcribed in the harness (callees are the real functions).",
     "technique": "Lean 4 inductive invariant over an unbounded-thread transition system + exact differential + real-thread races "
